@@ -12,12 +12,14 @@ LEVEL = "other"
 LEVEL_TEXT = (
     "The composition 'verb sent / reply accepted / value returned' is decided statically: the reply tables are "
     "exhaustive and equal to the protocol/contract tables; each public method sends the verb it is documented to send "
-    "and asks for cas tokens exactly in the gets family; for delete, touch, flush_all, incr, decr, version the code after "
-    "the exchange is evaluated abstractly on every reply token the protocol allows for that verb and must return the "
-    "documented value; with noreply the documented constant is returned and defaults resolve to default_noreply. "
+    "and asks for cas tokens exactly in the gets family; every public method is interpreted end to end (exchange functions and "
+    "helpers inlined, exact key collections, scripted reply lines: pmcsa/colls.py, script_eval) on every reply of its "
+    "verb's alphabet and must return the documented value - per key for multi-key calls of 0, 1 and 2 keys -, raise the "
+    "documented exception for error lines and foreign lines, and return the documented constant with noreply; defaults "
+    "resolve to default_noreply. An obligation the abstraction cannot evaluate exactly is reported as undecided (exit 2). "
     "Anything over histories (cas tokens accepted later, expiry, equivalence with a map model) is not decided."
 )
-TRUSTED = ["CPython ast", "pmcsa/paths.py", "pmcsa/wire.py", "protocol/contract tables in pmcsa/spec.py"]
+TRUSTED = ["CPython ast", "pmcsa/paths.py", "pmcsa/colls.py", "pmcsa/wire.py", "protocol/contract tables and reply scripts in pmcsa/spec.py"]
 
 
 class ReplyDomain(Domain):
@@ -131,6 +133,8 @@ class StoreDomain(ExactCollections, ReplyDomain):
         if b is not None:
             return b
         if is_self_attr(node, "sock"):
+            if getattr(self, "fault", None) == "connect":
+                return state.get("self.sock", NONE)  # not connected, and connecting fails (see call)
             return Opaque("sock")  # connected: connection handling is C06's subject
         if is_self_attr(node, "ignore_exc") and getattr(self, "ignore_exc", None) is not None:
             return Const(self.ignore_exc)
@@ -172,6 +176,12 @@ class StoreDomain(ExactCollections, ReplyDomain):
         if name == "self.check_key" and args and isinstance(args[0], Opaque) and args[0].tag.startswith("K"):
             # the wire form of the symbolic key K<i> is the token k<i>
             return [("ok", Const(args[0].tag.lower().encode()), state)]
+        if name == "self._connect" and getattr(self, "fault", None) == "connect":
+            return [("exc", Exc(ORD, "ConnectionRefusedError", node.lineno), state)]
+        if name == "self.serde.deserialize" and getattr(self, "fault", None) == "deserialize":
+            return [("exc", Exc(ORD, "UnpicklingError", node.lineno), state)]
+        if isinstance(node.func, ast.Attribute) and node.func.attr == "sendall" and getattr(self, "fault", None) == "send":
+            return [("exc", Exc(ORD, "BrokenPipeError", node.lineno), state)]
         if name in ("self.serde.deserialize", "self.serde.serialize"):
             return [("ok", Val("%s(%s)" % (name[11:], ", ".join(map(_show, args)))) if name.endswith("deserialize") else TOP, state)]
         return ReplyDomain.call(self, node, fval, args, kwargs, state)
@@ -199,7 +209,7 @@ def _show(v):
     return str(v)
 
 
-def script_eval(prog, mname, replies, nkeys=2, noreply=False, ignore_exc=False, full=False, oneshot=False):
+def script_eval(prog, mname, replies, nkeys=2, noreply=False, ignore_exc=False, full=False, oneshot=False, fault=None):
     """Evaluate any public wire method of Client end to end against a scripted sequence of reply lines / data blocks.
     -> (returned values, exception classes)"""
     from .colls import DictV
@@ -209,6 +219,7 @@ def script_eval(prog, mname, replies, nkeys=2, noreply=False, ignore_exc=False, 
     direct, readers = exchange.recv_reaching_functions(prog)
     dom = StoreDomain(prog, f, replies, noreply, exn, exn, readers)
     dom.ignore_exc = ignore_exc
+    dom.fault = fault  # None | 'connect' | 'send' | 'deserialize'
     ks = tuple(Opaque("K%d" % (i + 1)) for i in range(nkeys))
     env = {}
     for p in f.params:
